@@ -108,6 +108,21 @@ Proof. reflexivity. Qed.
 Lemma npanic_ret u r d tr : npanic (ERet u r d :: tr) = negb (is_panic r) && npanic tr.
 Proof. unfold npanic. cbn [has_panic]. destruct (is_panic r), (has_panic tr); reflexivity. Qed.
 
+(** one call of the wrapped iterator: it yields the next position, or answers None -- when it is fused,
+    only because it is exhausted *)
+Lemma src_next_cases e sh :
+  (src_next e sh = Some (s_cur sh) /\ s_cur sh < e_len e) \/
+  (src_next e sh = None /\ (fused e -> e_len e <= s_cur sh)).
+Proof.
+  unfold src_next. destruct (e_gap e (s_calls sh)) eqn:Eg.
+  - right. split; [reflexivity|]. intros Hfu. rewrite (Hfu (s_calls sh)) in Eg. discriminate.
+  - destruct (N.ltb_spec (s_cur sh) (e_len e)) as [H|H]; [left|right]; split; auto.
+Qed.
+
+Lemma src_next_fused e sh : fused e ->
+  src_next e sh = if s_cur sh <? e_len e then Some (s_cur sh) else None.
+Proof. intros Hfu. unfold src_next. rewrite (Hfu (s_calls sh)). reflexivity. Qed.
+
 Section IterEq.
 
 Variable e : env.
